@@ -76,3 +76,25 @@ def clampSpec (P : Nat) (signed : Bool) (v : Int) : Int :=
   else max 0 (min v ((2:Int) ^ P - 1))
 
 end J2kQuant
+
+/-!
+  ## encodeQuantizationStep on float64 inputs, exactly
+  A positive float64 is a dyadic rational `m * 2^e` (m a natural number).  `stepSize * 8192.0` is exact in
+  float64 (power of two), `math.Floor` is exact, so `fixed = ⌊m * 2^(e+13)⌋` exactly; `int32(…)` is the identity
+  below 2^31 (steps below 2^18); `if fixed <= 0 { fixed = 1 }`.  EXACT MODEL of the float prefix for dyadic inputs.
+  What stays unmodelled is how the requested step itself is computed (`qualityScale`: math.Pow; division by the
+  `dwtNorms97` table entry): the requested step `StepSizes[i]` is an input here.
+-/
+namespace J2kQuant
+
+def fixedOfDyadic (m : Nat) (e : Int) : Nat :=
+  let f := if 0 ≤ e + 13 then m * 2 ^ (e + 13).toNat else m / 2 ^ (-(e + 13)).toNat
+  if f = 0 then 1 else f
+
+/-- encodeQuantizationStep(m·2^e, numbps) as the 16-bit word -/
+def encodeStepDyadic (m : Nat) (e : Int) (numbps : Int) : Nat :=
+  if m = 0 then 0 else
+  let em := encodeFixed (fixedOfDyadic m e) numbps
+  pack em.1 em.2
+
+end J2kQuant
